@@ -587,6 +587,8 @@ pub fn run(p: &Params) -> Run {
     select_level(&mut run, &mut rng, n_stmt);
     run.notes.push("statement level: SELECT lists mixing columns, qualified columns, expressions, `input`, `*`, aliases (also clashing ones) with WHERE; names checked against alias|column|p<i>; whole-run output = concatenation of the per-line outputs; three-way with Spec.Select".to_owned());
     run.notes.push("expression level: type-directed generator (≈ 80% well-typed, 20% with ill-typed sub-terms) + operator × type × type table".to_owned());
+    // the end-to-end stream: the same property seen from raw texts and raw file bytes (`e2e.rs`, Lean `Pipeline.runText`)
+    crate::e2e::stream(&mut run, &mut Rng::new(p.seed ^ 0xe2e03), p.n(250, 3000), "select");
     run
 }
 
